@@ -42,6 +42,43 @@ func B(site int, c bool) bool {
 	return c
 }
 
+// Seen records the tag of a tagged switch; it always returns true.
+func Seen(site int, v interface{}) bool {
+	if on {
+		mix(uint64(site) | 2<<40)
+		switch x := v.(type) {
+		case int:
+			mix(uint64(x))
+		case uint:
+			mix(uint64(x))
+		case int64:
+			mix(uint64(x))
+		case uint64:
+			mix(x)
+		case int32:
+			mix(uint64(x))
+		case uint32:
+			mix(uint64(x))
+		case uint8:
+			mix(uint64(x))
+		case bool:
+			if x {
+				mix(1)
+			} else {
+				mix(0)
+			}
+		case string:
+			for i := 0; i < len(x); i++ {
+				mix(uint64(x[i]))
+			}
+		default:
+			// other tag types (pointers, named types): only the fact that the switch ran is recorded
+		}
+		count++
+	}
+	return true
+}
+
 // Start begins a recording.
 func Start() { h, count, on = 14695981039346656037, 0, true }
 
